@@ -78,7 +78,8 @@ def _generate_operator(ns, node):
             if s1 and not s2:
                 r2 = to_signed(r2)
         r = f"{r1} {operator} {r2}"
-        s = s1 or s2
+        # The result of a comparison is unsigned.
+        s = (s1 or s2) and operator not in ["<", "<=", "==", "!=", ">", ">="]
 
     # Ternary Operator.
     if arity == OperatorType.TERNARY:
